@@ -25,11 +25,11 @@ RULE = (
     "are scrambled by every external call), externals are emulator hooks with the reference interpreter's deterministic "
     "results. Integer types up to 32 bits on the 32 bit targets (ppci's riscv/arm back ends have no 64 bit integers, arm no "
     "floats). Sixteen shards draw x86_64/riscv/riscv:rvc cases, sixteen more draw arm cases. "
-    "Modules use the generator's loop-phi-live-after-the-loop shapes (phi_liveout). A fixed corpus (replays/C05/corpus_*: "
+    "Modules use the generator's loop-phi-live-after-the-loop shapes (phi_liveout). A fixed corpus (replays/C05/corpus_* replayed before the search, replays/C05/arm/* evaluated in the pool: "
     "every binary operator, comparison and widening/narrowing cast per integer type with all operands kept live, calls "
     "with 9 mixed-type arguments, per target; arm also: comparisons and '>>' of wrapped 8/16 bit sums, loads of every narrow "
-    "type widened, stores next to neighbours, external calls with values live across them, division) is replayed before "
-    "the search; a deterministic sweep puts constants at the edges of the immediate / displacement fields. "
+    "type widened, stores next to neighbours, external calls with values live across them, division); "
+    "a deterministic sweep puts constants at the edges of the immediate / displacement fields. "
     "Oracle: the reference interpreter vf/irsem.py on the same module, run under three memory layouts (address dependent "
     "and never initialised parts masked; executions undefined in IR terms discarded). Shapes that reach an open finding "
     "are excluded per target (evidence key excluded_shapes). "
@@ -949,6 +949,9 @@ def case_strategy(draw, targets=("x86_64",)):
 def _worker(arg):
     seed, n, targets = arg
     stats = Stats()
+    import time
+
+    t_start = time.time()
 
     def prop(case):
         for kid in active_findings(case["target"]):
@@ -971,6 +974,7 @@ def _worker(arg):
         fails = hyp_search(case_strategy(targets), prop, n, seed, stats, classify=classify, skip_first=1)
     finally:
         cleanup()
+    stats.hist["shard_wall_s:%s:%d" % ("arm" if targets == ("arm",) else "base", min(int(time.time() - t_start) // 10 * 10, 300))] += 1
     return stats, fails
 
 
@@ -1029,16 +1033,16 @@ def edge_cases(target, quick=False):
     return cases
 
 
-def _edge_worker(case):
+def _edge_worker(case, kind="edge_sweep:"):
     stats = Stats()
     fails = []
     try:
         msg, defined, ran = run_case(case, stats, exclude=False)
     except Discard as d:
-        stats.discard("edge sweep: " + d.reason[:60])
+        stats.discard(kind.replace("_", " ").rstrip(":") + ": " + d.reason[:60])
         cleanup()
         return stats, fails
-    stats.case(None, ran > 0, None, classes=["edge_sweep:" + case["target"]])
+    stats.case(None, ran > 0, None, classes=[kind + case["target"]])
     if msg:
         kid = classify(case, msg)
         if kid:
@@ -1050,6 +1054,30 @@ def _edge_worker(case):
 
 
 ARM_SHARDS = 16
+
+
+def _task(arg):
+    """one pool task: a search shard (seed, n, targets) or one stored corpus case ("case", case)"""
+    if arg[0] == "case":
+        return _edge_worker(arg[1], "corpus:")
+    return _worker(arg)
+
+
+def arm_corpus():
+    """replays/C05/arm/*.json: the arm regression corpus.  It lives one level below replays/C05 so that the runner does not
+    replay it sequentially before the search; it is evaluated in the pool instead (same evaluation, same triage)."""
+    import json
+
+    from ..core import VERIF
+
+    d = os.path.join(VERIF, "replays", PID, "arm")
+    out = []
+    for name in sorted(os.listdir(d)) if os.path.isdir(d) else []:
+        if name.endswith(".json"):
+            with open(os.path.join(d, name)) as f:
+                doc = json.load(f)
+            out.append(doc.get("case", doc))
+    return out
 
 
 def run(ctx):
@@ -1075,11 +1103,18 @@ def run(ctx):
         # shards of their own (the draws of the sixteen shards above stay what they were before arm was added)
         n_arm = ctx.scale(128, 9600)
         shards += [(subseed(ctx.seed, PID, 16 + w), max(1, n_arm // ARM_SHARDS), ("arm",)) for w in range(ARM_SHARDS)]
-    ctx.pmap(_worker, shards)
+    import time
+
+    t0 = time.time()
+    corpus = arm_corpus() if arm else []
+    ctx.pmap(_task, shards + [("case", c) for c in corpus])
+    ctx.extra["arm_corpus_modules"] = len(corpus)
+    t1 = time.time()
     sweep = []
     for t in ["x86_64"] + (["riscv", "riscv:rvc"] if rv else []) + (["arm"] if arm else []):
         sweep.extend(edge_cases(t, ctx.quick))
     ctx.pmap(_edge_worker, sweep)
+    ctx.extra["phase_wall_s"] = {"before_search (witnesses + corpus)": round(t0 - ctx.t0, 1), "search": round(t1 - t0, 1), "edge_sweep": round(time.time() - t1, 1)}
     ctx.extra["edge_sweep_modules"] = len(sweep)
     ctx.extra["targets_covered"] = ["x86_64"] + (["riscv", "riscv:rvc"] if rv else []) + (["arm (A32; integer types up to 32 bits)"] if arm else [])
     ctx.extra["excluded_shapes"] = {k: sorted("%s %s %s" % x for x in FINDINGS[k]["forbid"]) + sorted("%s=%r" % x for x in FINDINGS[k].get("profile_kw", {}).items())
